@@ -145,7 +145,7 @@ def run_case(case):
                                 return _REAL_EIGS(Aop, **kw)
                             mtr.eigs = wrapped
                             try:
-                                ev, evec = DecompositionTool(Q).get_decomposition(tol=tol, maxiter=100000, which=which,
+                                ev, evec = DecompositionTool(Q).get_decomposition(tol=tol, maxiter=20000, which=which,
                                                                                   sigma=sigma, k=k)
                             except Exception as e:
                                 if type(e).__name__ == "ArpackNoConvergence":
